@@ -9,8 +9,10 @@
 //! TLC in KMeansTrace.tla.
 //!
 //! Events
-//!   KMFit { cls, prec, n, d, k, maxIter, xs, X, status, finite, inrange, y, size, cfx,
-//!           pstatus, exact, Q, Q8, c8, pred }
+//!   KMFit { cls, prec, n, d, k, maxIter, xs, X, offmax, status, finite, inrange, y, size, cfx,
+//!           pstatus, exact, Q, Q8, c8, pred, mult? }
+//!       offmax > 0: offset family -- the library saw X + off, Q + off; X, Q, cfx, c8 are shifted back
+//!       mult: number of identical (max_iter, outcome) repetitions (refit mode only)
 //!       X    rows: lattice integers (xs = 4096) or round(x * 2^12) for continuous data (xs = 1)
 //!       cfx  round(centroid * 2^12);  c8 / Q8: round(v * 2^8) of centroids / query rows
 //!       y, size, centroids come from the serde serialisation of the fitted model
@@ -153,6 +155,15 @@ fn run_fit(prec: u32, x: &Rows, q: &Rows, k: usize, mi: usize) -> FitOut {
 
 /// project one fit to an event.  `lattice`: X / Q hold exact integers.
 fn fit_event(run: i64, cls: &str, prec: u32, lattice: bool, x: &Rows, q: &Rows, k: usize, mi: usize, o: &FitOut) -> Value {
+    fit_event_off(run, cls, prec, lattice, x, q, k, mi, o, &[])
+}
+
+/// Offset families: the library was given `x + off` and `q + off` (a common, exactly
+/// representable offset per column); the event carries the small rows `x`, `q` and the
+/// reported centroids shifted back by the same offset (c - off is an exact floating-point
+/// subtraction).  Nearest-centroid assignment and cluster means are equivariant under a
+/// common shift, so the specification decides the clauses on the small integers.
+fn fit_event_off(run: i64, cls: &str, prec: u32, lattice: bool, x: &Rows, q: &Rows, k: usize, mi: usize, o: &FitOut, off: &[f64]) -> Value {
     let n = x.len();
     let d = x[0].len();
     let q12 = Q::new(S_FIT);
@@ -165,9 +176,17 @@ fn fit_event(run: i64, cls: &str, prec: u32, lattice: bool, x: &Rows, q: &Rows, 
     };
     let mut e = json!({"run": run, "ev": "KMFit", "cls": cls, "prec": prec, "n": n, "d": d, "k": k,
                        "maxIter": mi, "xs": xs, "X": xi, "status": o.status});
+    let offmax: i64 = off.iter().fold(0i64, |a, &v| a.max(v.abs() as i64));
+    e.as_object_mut().unwrap().insert("offmax".into(), json!(offmax));
+    e.as_object_mut().unwrap().insert("off".into(), json!(off.iter().map(|&v| v as i64).collect::<Vec<i64>>()));
     if o.status == "ok" {
-        let cfx = q12.m(&o.centroids);
-        let c8 = q8.m(&o.centroids);
+        let back: Rows = o
+            .centroids
+            .iter()
+            .map(|c| c.iter().enumerate().map(|(j, &v)| v - off.get(j).copied().unwrap_or(0.0)).collect())
+            .collect();
+        let cfx = q12.m(&back);
+        let c8 = q8.m(&back);
         let qq8 = q8.m(q);
         let qi: Vec<Vec<i64>> = if lattice {
             q.iter().map(|r| r.iter().map(|&v| int_exact(v).unwrap_or(0)).collect()).collect()
@@ -498,11 +517,22 @@ fn in_range(x: &[Vec<i64>], cs: &[RC]) -> bool {
 }
 
 fn bbd_event(run: i64, cls: &str, x: &[Vec<i64>], cs: &[RC], exp: Option<&Value>) -> Value {
+    bbd_event_off(run, cls, x, cs, exp, &[])
+}
+
+/// `off`: common offset per column added to rows and centroids before they are handed to the
+/// tree (empty = none).  Only used with centroid denominators 1 / 2, so that `off + cn/cd` is
+/// exact.  The returned sums are split exactly into sumsHi * off + sums (sums = the part that
+/// belongs to the small rows); the distortion is recorded at a coarse scale (S <= 2) because the
+/// tree's cached node costs lose about 1e-7 per row at |off| ~ 1e9.
+fn bbd_event_off(run: i64, cls: &str, x: &[Vec<i64>], cs: &[RC], exp: Option<&Value>, off: &[i64]) -> Value {
     let n = x.len();
     let d = x[0].len();
     let k = cs.len();
-    let xf: Rows = x.iter().map(|r| r.iter().map(|&v| v as f64).collect()).collect();
-    let cf: Rows = cs.iter().map(rc_float).collect();
+    let o = |j: usize| -> f64 { off.get(j).copied().unwrap_or(0) as f64 };
+    let xf: Rows = x.iter().map(|r| r.iter().enumerate().map(|(j, &v)| v as f64 + o(j)).collect()).collect();
+    let cf: Rows = cs.iter().map(|c| rc_float(c).iter().enumerate().map(|(j, &v)| v + o(j)).collect()).collect();
+    let offmax: i64 = off.iter().fold(0i64, |a, &v| a.max(v.abs()));
     let r = guard(|| {
         let xd = DenseMatrix::from_2d_vec(&xf);
         let h = BbdHandle::<f64>::new(&xd);
@@ -510,7 +540,8 @@ fn bbd_event(run: i64, cls: &str, x: &[Vec<i64>], cs: &[RC], exp: Option<&Value>
     });
     let cn: Vec<Vec<i64>> = cs.iter().map(|c| c.cn.clone()).collect();
     let cd: Vec<i64> = cs.iter().map(|c| c.cd).collect();
-    let mut e = json!({"run": run, "ev": "Bbd", "cls": cls, "n": n, "d": d, "k": k, "X": x, "cn": cn, "cd": cd});
+    let mut e = json!({"run": run, "ev": "Bbd", "cls": cls, "n": n, "d": d, "k": k, "X": x, "cn": cn, "cd": cd,
+                       "offmax": offmax, "off": off});
     let m = e.as_object_mut().unwrap();
     match r {
         Err(_) => {
@@ -520,7 +551,40 @@ fn bbd_event(run: i64, cls: &str, x: &[Vec<i64>], cs: &[RC], exp: Option<&Value>
             m.insert("status".into(), json!("ok"));
             m.insert("member".into(), json!(member));
             m.insert("counts".into(), json!(counts));
-            match intm(&sums) {
+            // exact split of every sum into hi * off + lo (hi = nearest multiple of the offset)
+            let split: Option<(Vec<Vec<i64>>, Vec<Vec<i64>>)> = if offmax == 0 {
+                None
+            } else {
+                let mut hi = vec![vec![0i64; d]; k];
+                let mut lo = vec![vec![0i64; d]; k];
+                let mut ok = true;
+                for c in 0..k {
+                    for j in 0..d {
+                        let v = sums[c][j];
+                        if !(v.is_finite() && v.fract() == 0.0 && v.abs() < 9.0e15) {
+                            ok = false;
+                            continue;
+                        }
+                        let h = (v / o(j)).round();
+                        let l = v - h * o(j);
+                        if l.abs() < 2.0e9 && h.abs() < 2.0e9 {
+                            hi[c][j] = h as i64;
+                            lo[c][j] = l as i64;
+                        } else {
+                            ok = false;
+                        }
+                    }
+                }
+                if ok { Some((hi, lo)) } else { Some((vec![], vec![])) }
+            };
+            let sums_proj: Option<Vec<Vec<i64>>> = match &split {
+                None => intm(&sums),
+                Some((hi, lo)) => {
+                    m.insert("sumsHi".into(), json!(hi));
+                    if lo.is_empty() { None } else { Some(lo.clone()) }
+                }
+            };
+            match sums_proj {
                 Some(s) => {
                     m.insert("sumsInt".into(), json!(true));
                     m.insert("sums".into(), json!(s));
@@ -531,7 +595,7 @@ fn bbd_event(run: i64, cls: &str, x: &[Vec<i64>], cs: &[RC], exp: Option<&Value>
                 }
             }
             // largest scale S <= 12 with (dist + n + 2) * 2^S < 2^30
-            let mut s = 12u32;
+            let mut s = if offmax == 0 { 12u32 } else { 2u32 };
             while s > 0 && (dist.abs() + n as f64 + 2.0) * ((1u64 << s) as f64) >= 1.0e9 {
                 s -= 1;
             }
@@ -586,6 +650,130 @@ fn gen_centroids(r: &mut StdRng, x: &[Vec<i64>], k: usize, range: i64) -> Vec<RC
         cs.push(c);
     }
     cs
+}
+
+/// common offsets per column: large, exactly representable, mixed signs
+fn pick_offsets(r: &mut StdRng, d: usize) -> Vec<i64> {
+    const OFFS: [i64; 6] = [1 << 30, 1_000_000_000, -(1 << 30), 1_700_000_000, 1 << 28, -999_999_999];
+    let same = r.gen_bool(0.5);
+    let first = OFFS[r.gen_range(0..OFFS.len())];
+    (0..d).map(|_| if same { first } else { OFFS[r.gen_range(0..OFFS.len())] }).collect()
+}
+
+fn shift(x: &Rows, off: &[i64]) -> Rows {
+    x.iter().map(|r| r.iter().enumerate().map(|(j, &v)| v + off[j] as f64).collect()).collect()
+}
+
+/// offset families for fit / predict: small lattice rows + a large common offset per column
+fn gen_fit_offset(out: &mut Out, run: &mut i64) {
+    let th = thorough();
+    let mut r = rng(1203);
+    let sets = if th { 90 } else { 26 };
+    let reps = if th { 12 } else { 4 };
+    for s in 0..sets {
+        // two thirds small enough for the exact predict clause (n <= 16, d <= 3)
+        let (n, d) = if s % 3 != 2 { (r.gen_range(3..=16usize), r.gen_range(1..=3usize)) }
+                     else { (r.gen_range(17..=80usize), r.gen_range(1..=6usize)) };
+        let x: Rows = match s % 2 {
+            0 => { let range = r.gen_range(2..=8); lattice_uniform(&mut r, n, d, range) }
+            _ => { let g = r.gen_range(2..=4); lattice_blobs(&mut r, n, d, g) }
+        };
+        let dist = distinct_rows(&x);
+        if dist < 2 {
+            continue;
+        }
+        let off = pick_offsets(&mut r, d);
+        let offf: Vec<f64> = off.iter().map(|&v| v as f64).collect();
+        let mut q: Rows = x.iter().take(24).cloned().collect();
+        for _ in 0..8 {
+            q.push((0..d).map(|_| r.gen_range(-4..=20) as f64).collect());
+        }
+        let xs = shift(&x, &off);
+        let qs = shift(&q, &off);
+        for _ in 0..reps {
+            let k = r.gen_range(2..=8usize.min(dist));
+            let mi = MAX_ITERS[r.gen_range(0..MAX_ITERS.len())];
+            *run += 1;
+            let o = run_fit(64, &xs, &qs, k, mi);
+            out.emit(fit_event_off(*run, "offset", 64, true, &x, &q, k, mi, &o, &offf));
+        }
+    }
+}
+
+/// offset families for the filtering step: rows and centroids far from the origin
+fn gen_bbd_offset(out: &mut Out, run: &mut i64) -> usize {
+    let th = thorough();
+    let mut r = rng(1204);
+    let mut skipped = 0usize;
+    let cases = if th { 400 } else { 70 };
+    for s in 0..cases {
+        let n = pick_n(&mut r, th).min(120);
+        let d = r.gen_range(1..=4usize);
+        let range: i64 = r.gen_range(1..=8);
+        let x: Vec<Vec<i64>> = match s % 3 {
+            0 => to_int_rows(&lattice_uniform(&mut r, n, d, range)),
+            1 => { let g = r.gen_range(2..=5); to_int_rows(&lattice_blobs(&mut r, n, d, g)) }
+            _ => { let m = r.gen_range(1..=7); to_int_rows(&lattice_dups(&mut r, n, d, m)) }
+        };
+        let range = if s % 3 == 1 { 16 } else { range };
+        let k = r.gen_range(1..=8usize);
+        // only denominators 1 and 2: `off + cn/cd` must be exact
+        let cs: Vec<RC> = gen_centroids(&mut r, &x, k, range).into_iter().filter(|c| c.cd <= 2).collect();
+        if cs.is_empty() || !in_range(&x, &cs) {
+            skipped += 1;
+            continue;
+        }
+        let off = pick_offsets(&mut r, d);
+        *run += 1;
+        out.emit(bbd_event_off(*run, "offset", &x, &cs, None, &off));
+    }
+    skipped
+}
+
+/// refit mode: data sets (X, k) for which the Lloyd design model reaches an empty cluster are
+/// fitted `reps` times each (the seeding of the library cannot be controlled).  Identical
+/// (max_iter, outcome) pairs are emitted once with their multiplicity `mult` -- a lossless
+/// compression of the record, not a selection.
+fn refit(inp: &str, out: &mut Out, run: &mut i64) {
+    let reps: usize = if thorough() { 9000 } else { 2400 };
+    for v in read_ndjson(inp) {
+        let x: Rows = v["X"]
+            .as_array()
+            .unwrap()
+            .iter()
+            .map(|r| r.as_array().unwrap().iter().map(|a| a.as_i64().unwrap() as f64).collect())
+            .collect();
+        let k = v["k"].as_u64().unwrap() as usize;
+        let xc = x.clone();
+        let res = watchdog(300, move || {
+            let mut seen: std::collections::BTreeMap<String, (usize, usize, FitOut)> = std::collections::BTreeMap::new();
+            for i in 0..reps {
+                let mi = [1usize, 2, 3, 100][i % 4];
+                let o = fit_direct!(f64, &xc, k, mi);
+                let key = format!("{}|{}|{:?}|{:?}|{:?}|{:?}", mi, o.status, o.y, o.size,
+                                  o.centroids.iter().map(|c| c.iter().map(|v| v.to_bits()).collect::<Vec<u64>>()).collect::<Vec<_>>(),
+                                  o.pred.iter().map(|v| v.to_bits()).collect::<Vec<u64>>());
+                seen.entry(key).or_insert((mi, 0, o)).1 += 1;
+            }
+            seen
+        });
+        match res {
+            Some(Ok(seen)) => {
+                for (_, (mi, mult, o)) in seen {
+                    *run += 1;
+                    let mut e = fit_event(*run, "refit", 64, true, &x, &x, k, mi, &o);
+                    e["mult"] = json!(mult);
+                    out.emit(e);
+                }
+            }
+            _ => {
+                *run += 1;
+                let mut e = fit_event(*run, "refit", 64, true, &x, &x, k, 1, &empty_out("timeout"));
+                e["mult"] = json!(reps);
+                out.emit(e);
+            }
+        }
+    }
 }
 
 fn to_int_rows(x: &Rows) -> Vec<Vec<i64>> {
@@ -718,7 +906,8 @@ fn rerun(inp: &str, out: &mut Out, run: &mut i64) {
             let cn = ints(&v["cn"]);
             let cd: Vec<i64> = v["cd"].as_array().unwrap().iter().map(|a| a.as_i64().unwrap()).collect();
             let cs: Vec<RC> = cn.into_iter().zip(cd).map(|(cn, cd)| RC { cn, cd }).collect();
-            out.emit(bbd_event(*run, v["cls"].as_str().unwrap_or("rerun"), &x, &cs, None));
+            let off: Vec<i64> = v["off"].as_array().map(|a| a.iter().map(|b| b.as_i64().unwrap_or(0)).collect()).unwrap_or_default();
+            out.emit(bbd_event_off(*run, v["cls"].as_str().unwrap_or("rerun"), &x, &cs, None, &off));
         } else if v["ev"] == "KMFit" && v["xs"].as_i64() == Some(1 << S_FIT) {
             let x: Rows = ints(&v["X"]).iter().map(|r| r.iter().map(|&a| a as f64).collect()).collect();
             let q: Rows = if v["Q"].is_array() {
@@ -729,8 +918,11 @@ fn rerun(inp: &str, out: &mut Out, run: &mut i64) {
             let prec = v["prec"].as_u64().unwrap_or(64) as u32;
             let k = v["k"].as_u64().unwrap() as usize;
             let mi = v["maxIter"].as_u64().unwrap() as usize;
-            let o = run_fit(prec, &x, &q, k, mi);
-            out.emit(fit_event(*run, v["cls"].as_str().unwrap_or("rerun"), prec, true, &x, &q, k, mi, &o));
+            let off: Vec<i64> = v["off"].as_array().map(|a| a.iter().map(|b| b.as_i64().unwrap_or(0)).collect()).unwrap_or_default();
+            let offf: Vec<f64> = off.iter().map(|&b| b as f64).collect();
+            let (xs, qs) = if off.is_empty() { (x.clone(), q.clone()) } else { (shift(&x, &off), shift(&q, &off)) };
+            let o = run_fit(prec, &xs, &qs, k, mi);
+            out.emit(fit_event_off(*run, v["cls"].as_str().unwrap_or("rerun"), prec, true, &x, &q, k, mi, &o, &offf));
         } else {
             // continuous inputs are stored quantised and cannot be re-executed exactly
             out.emit(v.clone());
@@ -754,6 +946,7 @@ fn main() {
         "gen-fit" => {
             let mut out = Out::create(path);
             gen_fit(&mut out, &mut run);
+            gen_fit_offset(&mut out, &mut run);
             gen_ulp(&mut out, &mut run);
             let n = out.finish();
             println!("events={} runs={} skipped={}", n, run, skipped);
@@ -761,12 +954,19 @@ fn main() {
         "gen-bbd" => {
             let mut out = Out::create(path);
             skipped = gen_bbd(&mut out, &mut run);
+            skipped += gen_bbd_offset(&mut out, &mut run);
             let n = out.finish();
             println!("events={} runs={} skipped={}", n, run, skipped);
         }
         "replay-spec" => {
             let mut out = Out::create(arg(args, 2));
             replay_spec(path, &mut out, &mut run);
+            let n = out.finish();
+            println!("events={} runs={} skipped={}", n, run, skipped);
+        }
+        "refit" => {
+            let mut out = Out::create(arg(args, 2));
+            refit(path, &mut out, &mut run);
             let n = out.finish();
             println!("events={} runs={} skipped={}", n, run, skipped);
         }
